@@ -90,7 +90,7 @@ func sizedCase(k *engine.Case) {
 			data, sty := payload(r, sz, 20)
 			st = &step{op: opWrite, need: sz, desc: "Write(" + sty + " " + fmtBytes(data) + ")",
 				run: func(b buffer) (string, []byte) {
-					m, err := b.Write(append([]byte(nil), data...))
+					m, err := writeOwn(b, data)
 					return fmt.Sprintf("n=%d err=%s", m, errText(err)), nil
 				}}
 			k.Count("sized_write_around_n", 1)
